@@ -125,6 +125,14 @@ def run(tier, seed, replay):
                 for v, ss in semrun.build_sources(c, rnd, 2 if tier == "quick" else 4):
                     for p, t in ss:
                         clean.append(t)
+        # character references in every documented form (decimal, hexadecimal with one to six digits, digits in either case, with
+        # leading zeros, named) and the structural directive combinations that ARE well formed
+        for cp in (9, 10, 13, 32, 34, 38, 39, 60, 62, 65, 123, 160, 0x2028, 0xFFFD, 0x1F600, 0x10FFFF):
+            for ref in ("&#%d;" % cp, "&#x%x;" % cp, "&#x%X;" % cp, "&#x0%x;" % cp, "&#%04d;" % cp):
+                clean.append("a%sb" % ref)
+                clean.append('<v a="x%sy" class="%s">{{ c }}%s</v>' % (ref, ref, ref))
+        for name in ("amp", "lt", "gt", "quot", "apos", "nbsp", "copy", "hellip", "NotEqualTilde"):
+            clean.append('<v a="&%s;">&%s;{{ c }}</v>' % (name, name))
         clean = list(dict.fromkeys(clean))
         vcases = [{"id": i, "files": [["a", s]], "want": ["trace"]} for i, s in enumerate(clean)]
         vres = vlib.run_vh("tmpl", vcases)
